@@ -36,6 +36,11 @@ def run(ctx, R, tier):
     ibs(F, R)
     ibs_single(F, R)
     builders(F, R)
+    setters(F, R, fn_filter=lambda q: q.startswith('track::'), floor=8)
+    # 'multiplied by the volume of every track on its path': a track / route volume starts from what the builder was given, and a
+    # linked one (a modulator, the listener's distance) is polled from the first callback on
+    from .c06 import config_verbatim
+    config_verbatim(F, R, rule='B.C02.config', fn_filter=lambda q: q.startswith('track::'), floor=6)
     # nothing is lost: a track is not unloaded while a descendant track (with its sounds) is alive
     from .c12 import remove_rule
     remove_rule(F, R, rule='B.C02.alive')
@@ -85,6 +90,61 @@ def builders(F, R):
                 '%s does not %s on every path: what was asked of the builder is silently dropped' % (b.path, 'insert the route into sends' if nm == 'with_send' else 'push the effect into effects'),
                 detail={'method': b.path}, where=b.file)
     R.floor('B.C02.builder', n, 18)
+
+
+SETTER_CONVERSIONS = ('std::convert::Into::into', '<T as std::convert::Into<U>>::into', 'value::Value::<T>::to_', 'sound::IntoOptionalRegion::into_optional_region',
+                      'std::option::Option::Some', 'std::convert::From::from', 'tuple')
+
+
+def setters(F, R, rule='B.C02.setter', fn_filter=None, floor=50):
+    """A builder / settings method named after a field stores what it was given in that field, whatever it is: the method has
+    no branch (it does not look at the value, at what an earlier call set, or at another setting) and the field receives the
+    argument through conversions only (`into()`, `to_()`, `Some(..)`, `into_optional_region()`).  A setter that validates,
+    clamps, merges or silently ignores its argument makes the configured object differ from the configuration."""
+    from ..paths import parse_term
+    n = 0
+    for b in F.bodies:
+        if b.krate != 'kira' or '{closure' in b.path or b.path.startswith('<') or b.arg_count != 2 or (fn_filter is not None and not fn_filter(b.path)):
+            continue
+        owner, nm = b.path.rsplit('::', 1)
+        if 'uilder' not in owner and 'Settings' not in owner:
+            continue        # (the `slice` methods of the sound data compute a region: not plain setters)
+        a = F.adt(owner.split('::<')[0]) or F.adt(owner)
+        if not a or a.get('kind') != 'Struct' or nm not in [f['name'] for f in a['variants'][0]['fields']]:
+            continue
+        if not any(1 <= l <= 1 and x == 'self' for l, x in b.names.items()):
+            continue
+        params = [x for l, x in b.names.items() if l == 2]
+        if not params:
+            continue
+        n += 1
+        branches = [x for x in range(b.n) if b.blocks[x]['term']['k'] == 'switch' and not b.blocks[x].get('cleanup')]
+        # what the field receives
+        vals = []
+        for bb, si, s in b.stmts():
+            if s['k'] != 'assign':
+                continue
+            pr = s['lhs']['p']
+            if s['lhs']['l'] in (0, 1) and pr and [x for x in pr if x[0] == 'field'] and [x for x in pr if x[0] == 'field'][0][2] == nm and len([x for x in pr if x[0] == 'field']) == 1:
+                vals.append(describe_rv_(b, s, bb))
+            elif s['rv']['k'] == 'agg' and s['rv'].get('ak') == 'adt' and nm in (s['rv'].get('fields') or []) and (s['rv'].get('adt') or '').split('::')[-1] == owner.split('::')[-1].split('<')[0]:
+                vals.append(describe(b, s['rv']['ops'][s['rv']['fields'].index(nm)], depth=6, at=bb))
+
+        def ok_term(d):
+            t, args = parse_term(d)
+            if args is None:
+                return d == params[0]
+            return t in SETTER_CONVERSIONS and any(ok_term(x) for x in args) and all(ok_term(x) or not any(p_ in x for p_ in params) for x in args)
+        good = not branches and len(vals) >= 1 and all(ok_term(v) for v in vals)
+        R.check(good, rule, b.path, '%s %s: what the builder was asked for is not what it holds' % (
+            b.path, 'looks at a value before storing its argument' if branches else 'stores %s in its field' % [v[:80] for v in vals][:2]),
+            detail={'stored': [v[:80] for v in vals][:2]}, where=b.file, nontrivial=False)
+    R.floor(rule, n, floor)
+
+
+def describe_rv_(b, s, bb):
+    from ..paths import describe_rv
+    return describe_rv(b, s['rv'], depth=6, at=bb)
 
 
 def hygiene(F, R):
